@@ -79,12 +79,16 @@ type c16World struct {
 	dynClient *dynamicclientset.Clientset
 }
 
-func c16NewWorld() *c16World {
+func c16NewWorld() *c16World { return c16NewWorldRefresh(time.Hour) }
+
+// c16NewWorldRefresh: the ResourceMap re-reads discovery every refresh interval (short for the scenarios
+// in which discovery loses a resource while the controller runs)
+func c16NewWorldRefresh(refresh time.Duration) *c16World {
 	c16Install()
 	srv := sim.NewServer(c16Resources)
 	cfg := srv.RestConfig()
 	resources := dynamicdiscovery.NewResourceMap(discovery.NewDiscoveryClientForConfigOrDie(cfg))
-	resources.Start(time.Hour)
+	resources.Start(refresh)
 	for i := 0; !resources.HasSynced(); i++ {
 		if i > 5000 {
 			panic("discovery never synced")
@@ -96,6 +100,19 @@ func c16NewWorld() *c16World {
 		panic(err)
 	}
 	return &c16World{srv: srv, resources: resources, dynClient: dynClient}
+}
+
+// hideFromDiscovery hides (or shows again) a resource in discovery and waits until the ResourceMap has noticed
+func (w *c16World) hideFromDiscovery(apiVersion, resource string, hidden bool) bool {
+	w.srv.HideFromDiscovery(apiVersion, resource, hidden)
+	deadline := time.Now().Add(5 * time.Second)
+	for (w.resources.Get(apiVersion, resource) == nil) != hidden {
+		if time.Now().After(deadline) {
+			return false
+		}
+		time.Sleep(2 * time.Millisecond)
+	}
+	return true
 }
 
 func (w *c16World) close() {
